@@ -106,6 +106,7 @@ struct Runner
   std::map<std::string, std::string> planted;
   bool failed{false};
   char const* prop;
+  bool in_fail_c15{false};
   uint64_t cur_size_model{0};
   // evidence
   uint64_t rotations{0}, deletions_seen{0};
@@ -134,6 +135,9 @@ struct Runner
     w.unum("unrecovered_inherited_files", unrecovered_inherited);
     w.boolean("lost_in_reproduced_name", lost_in_reproduced_name);
     violation(prop, key, w);
+    // the size / count / whole-statement oracles are C14's: under the time-rotation workload (run for C15, and by
+    // the C14 check as well) their violations are reported for both properties
+    if (std::string{prop} == "C15" && !in_fail_c15) violation("C14", key, w);
   }
 
   Cfg make_cfg(char mode)
@@ -551,7 +555,9 @@ struct Runner
   {
     char const* saved = prop;
     prop = "C15";
+    in_fail_c15 = true;
     fail(key, w);
+    in_fail_c15 = false;
     prop = saved;
   }
 
